@@ -450,9 +450,18 @@ def _py_atomizer(env, extra=None, alias=None):
             return env[e.value.id]
         return None
 
+    temps = {k: v for k, v in env.items() if isinstance(v, ast.AST)}
+
+    def val(e, _val=val):
+        for _ in range(3):
+            if isinstance(e, ast.Name) and e.id in temps:
+                e = temps[e.id]
+        return _val(e) if not (isinstance(e, ast.Name) and e.id in temps) else None
+
     def atom(e):
-        if isinstance(e, ast.Name) and e.id in env and isinstance(env[e.id], ast.AST):
-            return atom(env[e.id])
+        if temps:
+            e = subst_names(e, temps)
+            e = subst_names(e, temps)
         if isinstance(e, ast.Call) and call_name(e) in ("np.abs", "abs", "np.fabs", "fabs") and len(e.args) == 1:
             a = e.args[0]
             if isinstance(a, ast.BinOp) and isinstance(a.op, ast.Sub):
@@ -528,11 +537,19 @@ def _r1_r2_fkm_statements(ctx):
     cur = loop.target.id
     env = {cur: IN}
     closing = None
+    ndefs = {}
+    for s in walk_stmts(fi.node.body):
+        for t in (s.targets if isinstance(s, ast.Assign) else [s.target] if isinstance(s, (ast.AugAssign, ast.For)) else []):
+            for n_ in ast.walk(t):
+                if isinstance(n_, ast.Name):
+                    ndefs[n_.id] = ndefs.get(n_.id, 0) + 1
     for s in walk_stmts(loop.body):
         if isinstance(s, ast.Assign) and isinstance(s.targets[0], ast.Name):
             sl = _resid_slot(s.value)
             if sl is not None:
                 env[s.targets[0].id] = sl
+            elif ndefs.get(s.targets[0].id) == 1 and len(s.targets) == 1:
+                env[s.targets[0].id] = s.value               # a temporary (e.g. abs_current = abs(current))
         if isinstance(s, ast.If) and any(_stack_delta(x, _stack_aliases(fi.node)) < 0 for x in s.body):
             closing = s
     if closing is None:
